@@ -7,6 +7,7 @@ n = int(sys.argv[1])
 words = {2: "one", 3: "two", 4: "three", 5: "four", 6: "five", 7: "six", 8: "seven"}
 hints = {
  5: "Aim for a defect in a part of the behaviour that is easy to overlook when writing a test generator: a query or secondary index rather than the primary record, an optional message field, a rarely used message type or keeper entry point used by another module, a code path only taken after a parameter change, migration or genesis import, a second denomination or account kind, or cleanup that should happen when an object is removed.",
+ 7: "Aim for a defect at an interaction: between two modules (one module's keeper or callback used by another: service with oracle/random, coinswap with farm, token with htlc or coinswap), between two messages of one transaction or two transactions of one block, between an operation and a query that should be read-only, between what an event or response reports and what the store holds, or between a rejected or partially applied operation and the next accepted one. Prefer functions and files that none of the earlier seeded changes touched, and inputs that are valid but that a test generator would only produce on purpose.",
  6: "Aim for a defect whose effect is delayed or indirect: the faulty step leaves state that looks right to the operation that wrote it and goes wrong only in a later, different operation (possibly of another module or another account), after several blocks, or only when two objects share a name prefix, a height, an owner or a denomination.",
 }
 for i in range(1, 21):
